@@ -36,6 +36,8 @@ def decide(out, obs, vals, core, st):
     eqpairs = 0
     samples = []
     for o in vlib.read_ndjson(obs):
+        if o.get("outcome") == "notrun":
+            continue
         if o.get("outcome") in ("hang", "abort", "harness_panic"):
             out.fail("NEW", "worker %s in the equality matrix" % o.get("outcome"), {"rows": o.get("input_case", {}).get("rows")})
             continue
